@@ -904,7 +904,108 @@ def r12_both_operands_are_keys(ctx):
     ctx.floor('C17.R12', 'equivalence functions that register generic names', n, 1)
 
 
+# comparisons by derived equality between a value of the template and a value of the concrete type, in the template-matching family:
+# (function, compared type) -> (count, why derived equality is the right relation there)
+REVIEWED_TEMPLATE_EQ = {
+    ('type_::{impl Type}::_is_a_template_for', 'Type'): (1, 'the `concrete == self` shortcut at the top: identical types match with no bindings (the concrete side is never generic in pavexc\'s calls)'),
+    ('path_type::PathType::_is_a_resolved_path_type_template_for', 'ConstGenericArgument'): (1, 'const generic arguments have no structure to bind: equality is the relation'),
+    ('type_::{impl Type}::_is_a_template_for', 'ScalarPrimitive'): (1, 'scalar primitives carry neither lifetimes nor parameters: equality is the relation'),
+}
+
+
+def r13_template_roles_and_relation(ctx):
+    ctx.rule('C17.R13', 'P9 operand roles in the template matcher: `template.is_a_template_for(concrete)` is asymmetric — generic parameters are bound on the '
+             'TEMPLATE side only, lifetimes and rustdoc ids are ignored. (a) Every recursive call in the family keeps the roles: the receiver is '
+             'a part of the template operand, the argument the corresponding part of the concrete operand (swapped, `Rejection<Json<T>>` no longer '
+             'matches `Rejection<Json<Payload>>` and a later catch-all handler is wired instead). (b) Parts of the two operands are never compared '
+             'by derived equality (`==` on Type / GenericArgument sees how lifetimes are spelled; matching does not: with an `==` fast path for '
+             '"fully assigned" arguments the nearest generic constructor stops matching `Tagged<T, Cow<\'_, str>>` and the scope walk silently '
+             'answers with the parent\'s) — except at the reviewed sites.')
+    fam = [b for b in family_bodies(ctx, 'template') if not b.is_promoted]
+    n_rec, n_eq = 0, {}
+    where = {}
+    for b in fam:
+        defs = Defs(b)
+        is_closure = b.nid != b.nroot
+        zip_sides = None
+        if is_closure:
+            # the closure's item is one element of `a.iter().zip(b.iter())` in the parent: its halves inherit the sides of the zip's operands
+            for pb in fam:
+                if pb.nid != b.nroot:
+                    continue
+                pdefs = Defs(pb)
+                for _, _, st in pb.all_assigns():
+                    rv = st['rv']
+                    if rv['k'] == 'agg' and rv.get('ak') == 'closure' and strip_generics(rv.get('def', '')) == b.nid:
+                        for ab, at in pb.calls():
+                            if any(op_place(a) == st['lhs'] for a in at['args'][1:]) and at['args']:
+                                q = op_place(at['args'][0])
+                                sl, _ = backward_slice(pb, q['l'], pdefs) if q else ([], set())
+                                for c, _, z in slice_calls(sl):
+                                    if c == 'core::iter::traits::iterator::Iterator::zip':
+                                        zs = []
+                                        for a in z['args'][:2]:
+                                            qa = op_place(a)
+                                            _, locs = backward_slice(pb, qa['l'], pdefs) if qa else ([], set())
+                                            zs.append({x for x in (1, 2) if x in locs})
+                                        zip_sides = zs
+
+        def side(op):
+            q = op_place(op)
+            if q is None:
+                return set()
+            if not is_closure:
+                return _side_of(b, defs, q['l'], list(q.get('p', [])))
+            if zip_sides is None:
+                return set()
+            # follow copies back to a projection of the closure's item (local 2)
+            cur, proj = q, list(q.get('p', []))
+            for _ in range(12):
+                if cur['l'] == 2:
+                    fs = [e for e in proj if e.startswith('f:')]
+                    if fs and fs[0] in ('f:0', 'f:1'):
+                        return zip_sides[int(fs[0][2:])]
+                    return set()
+                ds = defs.full.get(cur['l'], [])
+                if len(ds) != 1 or 'rv' not in ds[0][2]:
+                    return set()
+                rv = ds[0][2]['rv']
+                nxt = rv.get('pl') or (op_place(rv['op']) if rv['k'] in ('use', 'cast') else None)
+                if nxt is None:
+                    return set()
+                proj = list(nxt.get('p', [])) + proj
+                cur = nxt
+            return set()
+
+        for bb, t in b.calls():
+            c = strip_generics(callee(t) or '')
+            if c.endswith('_template_for') and len(t['args']) >= 2:
+                s0, s1 = side(t['args'][0]), side(t['args'][1])
+                if len(s0) == 1 and len(s1) == 1:
+                    n_rec += 1
+                    ok = (s0, s1) == ({1}, {2})
+                    ctx.ob('C17.R13', 'roles-kept|%s|bb%d' % (b.nid.replace(T, ''), bb), ok, b.loc(bb, t),
+                           'recursive call of %s: receiver from the %s operand, argument from the %s operand' % (
+                               c.split('::')[-1], 'template' if s0 == {1} else 'CONCRETE', 'concrete' if s1 == {2} else 'TEMPLATE'))
+            elif callee(t) in ('core::cmp::PartialEq::eq', 'core::cmp::PartialEq::ne') and t.get('aty') and len(t['args']) == 2:
+                ty = strip_generics(t['aty'][0]).lstrip('&')
+                if not ty.startswith(CR + '::'):
+                    continue
+                s0, s1 = side(t['args'][0]), side(t['args'][1])
+                if len(s0) == 1 and len(s1) == 1 and s0 != s1:
+                    k = (b.nroot.replace(T, ''), ty.split('::')[-1])
+                    n_eq[k] = n_eq.get(k, 0) + 1
+                    where.setdefault(k, b.loc(bb, t))
+    for k, cnt in sorted(n_eq.items()):
+        rev = REVIEWED_TEMPLATE_EQ.get(k)
+        ctx.ob('C17.R13', 'no-derived-equality-across-operands|%s|%s' % k, rev is not None and cnt <= rev[0], where[k],
+               '%d comparison(s) by derived equality between a part of the template and a part of the concrete %s in %s: %s' % (
+                   cnt, k[1], k[0], ('reviewed (%d) — %s' % rev) if rev else 'NOT REVIEWED: `==` is stricter than template matching (lifetime spelling, rustdoc ids)'))
+    ctx.floor('C17.R13', 'recursive calls of the template matcher with both roles determined', n_rec, 6)
+
+
 def check(ctx):
+    r13_template_roles_and_relation(ctx)
     r12_both_operands_are_keys(ctx)
     r4_bindings_compared_by_equality(ctx)
     r5_no_shortcut_around_recursion(ctx)
